@@ -14,6 +14,7 @@ CONFIG = dict(
           "hash of scenario and injection counts. Unit TestC07HugeCandidate: a never-submitted candidate that observes ~600 new ancestors at once is built "
           "(and rejected) on the dirty instance only, then a different event takes its slot and both instances go on."),
     assumptions=["rejected events are not stored in the event source (as real callers do)", "forking validators hold < 1/3 of the weight"],
+    level_more='In half of the cases event IDs do not depend on the claimed frame; in a quarter of the epochs the dirty instance first builds and processes a prefix of the epoch and is Reset to the same epoch.',
     units=[dict(test="TestC07NoTrace", quick=800, thorough=38400, shards=16),
            dict(test="TestC07HugeCandidate", quick=40, thorough=192, shards=16)],
 )
